@@ -129,6 +129,11 @@ func (p *TFramedTransport) Write(buf []byte) (int, error) {
 	return n, thrift.NewTTransportExceptionFromError(err)
 }
 
+// Reset drops what has been written since the last Flush.
+func (p *TFramedTransport) Reset() {
+	p.buf.Reset()
+}
+
 // Flush the transport.
 func (p *TFramedTransport) Flush(ctx context.Context) error {
 	size := p.buf.Len()
